@@ -1,3 +1,4 @@
+import XPathV.Generated.ExtraFacts
 import XPathV.Model.Api
 import XPathV.Lemmas.Facts
 /-!
@@ -27,5 +28,8 @@ theorem axis_table_ok : Generated.axisTable = [
 lacked the node-test conjuncts and dropped the step's name test) -/
 theorem shortcut_condition_ok : Generated.shortcutCondSrc =
     "!(root.Input==nil) && (flags&flagsEnum.Filter)==0 && root.AxisType==\"child\"&&(root.Input.Type()==nodeAxis) && input:=root.Input.(*axisNode);input.AxisType==\"descendant-or-self\"&&input.typeTest==allNode&&input.LocalName==\"\"&&input.Prefix==\"\"" := rfl
+
+/-- the model's shortcut guard is read off the source and is on -/
+theorem shortcut_guard_from_source : Model.shortcutNeedsNodeTestFromSource = true := by decide +kernel
 
 end XPathV.Theorems.C01
